@@ -307,7 +307,7 @@ pub fn run(env: &Env, tier: &str, seed: u64, out: &mut Outcome) {
     let thorough = tier == "thorough";
     let rounds = if thorough { 6 } else { 1 };
     let per_class = if thorough { 8 } else { 6 };
-    out.rule = "programs: the generators of all other families (string, message, property, iter, repr, shape, table, discriminants; every non-deprecated derive, every template class: each Display arm shape, case-sensitive / case-insensitive / default / default_with / custom-error / phf EnumString, const_into_str, transparent, generics ...) restricted to core-only payload types, plain ASCII literals and ordinary identifiers, compiled as library crates under three configurations: (A) #![no_std] with strum default-features = false and no allocator, (B) strum reachable only as the renamed dependency strum_x or through a nested re-export path given via #[strum(crate = ..)] (also passed through to discriminant enums), (C) local modules named core and std in every enum's scope. Oracle: no compile error attributed to a generated module. Non-trivial = distinct (derive:template-class, configuration) pairs.".into();
+    out.rule = "programs: the generators of all other families (string, message, property, iter, repr, shape, table, discriminants; every non-deprecated derive, every template class: each Display arm shape, case-sensitive / case-insensitive / default / default_with / custom-error / phf EnumString, const_into_str, transparent, generics ...) restricted to core-only payload types, plain ASCII literals and ordinary identifiers, compiled as library crates under three configurations: (A) #![no_std] with strum default-features = false and no allocator, (B) strum reachable only as the renamed dependency strum_x or through a nested re-export path given via #[strum(crate = ..)] (also passed through to discriminant enums, first among several strum pass-throughs in half of the programs; one path form is a local alias literally named strum), (C) local modules named core and std in every enum's scope; configuration A also in a release build of a crate with its own enabled `std` feature, and linked as a cdylib without an allocator; every field-aware derive also alone on a unit + tuple + named-field enum. Oracle: no compile error attributed to a generated module. Non-trivial = distinct (derive:template-class, configuration) pairs.".into();
     out.assumptions = vec![
         "host target only; the no_std argument rests on name resolution, which is target independent".into(),
         "use_phf is compiled under B and C only (the phf feature itself needs std)".into(),
